@@ -59,7 +59,7 @@ SchemaFields(ts, fa, ver) ==
             ELSE <<>>])
 
 LibSchema(name, ver) ==
-    CASE name \in {"ArcStr", "PathBuf"} -> SPrim("string")
+    CASE name \in {"ArcStr", "PathBuf", "ArrayString"} -> SPrim("string")
       [] name = "IpAddr" -> SEnum("IpAddr", 1, <<SVariant("IPV4", 0, <<SPrim("u32")>>), SVariant("IPV6", 1, <<SPrim("u128")>>)>>)
       [] name = "SocketAddr" -> SEnum("SocketAddr", 1,
                                   <<SVariant("IPV4", 0, <<SPrim("u16"), SPrim("u32")>>),
